@@ -126,6 +126,74 @@ def oracle(ci, cls, p, left, rng, rep):
     return None
 
 
+def circuit_stream(rep, rng, count):
+    """Oracle-only stream on the real objects: monoidal normal forms of circuit diagrams, whose
+    boxes (Bits, Copy, ClassicalGate, gates, measurements) have their own __eq__ / __hash__ /
+    __repr__: the normal form exists or is refused with NotImplementedError, has the same boxes,
+    is a fixed point, is the end of the normalize trace and denotes the same map."""
+    from discopy import monoidal
+    from discopy.quantum import circuit, gates
+    AND = gates.ClassicalGate('AND', 2, 1, [1, 0, 1, 0, 1, 0, 0, 1])
+    pool = [gates.H, gates.X, gates.CX, gates.Rz(0.25), gates.Ket(0), gates.Ket(1), gates.Bra(0), gates.Bits(0),
+            gates.Bits(1), gates.Bits(1, 0), gates.Copy(), gates.Match(), AND, circuit.Measure(), circuit.Discard(),
+            circuit.Discard(circuit.bit), gates.scalar(0.5), gates.ClassicalGate('NOT', 1, 1, [0, 1, 1, 0])]
+    corpus = [gates.Bits(0) >> gates.Bits(1) @ circuit.Id(circuit.bit) >> AND,
+              gates.Ket(0) >> gates.Ket(1) @ circuit.Id(circuit.qubit) >> gates.CX]
+    bad = 0
+    for k in range(count):
+        if k < len(corpus):
+            d = corpus[k]
+        else:
+            d = circuit.Id(circuit.Ty())
+            for _ in range(rng.randint(2, 6)):
+                scan = d.cod
+                b = rng.choice(pool)
+                places = [i for i in range(len(scan) - len(b.dom) + 1) if scan[i:i + len(b.dom)] == b.dom]
+                if not places:
+                    continue
+                off = rng.choice(places) if len(b.dom) else rng.randint(0, len(scan))
+                d = d >> circuit.Id(scan[:off]) @ b @ circuit.Id(scan[off + len(b.dom):])
+        left = bool(rng.randint(0, 1))
+        rep.case(["circuit-normal-form", repr(d), left], nontrivial=len(d) >= 2)
+        rep.count("stream:circuit-normal-form")
+        what = None
+        try:
+            nf = common.with_timeout(20.0, lambda: monoidal.Diagram.normal_form(
+                d, normalizer=ci_bounded(monoidal.Diagram.normalize), left=left))
+            steps = common.with_timeout(20.0, lambda: list(itertools.islice(
+                monoidal.Diagram.normalize(d, left=left), 2000)))
+            if sorted(map(repr, nf.boxes)) != sorted(map(repr, d.boxes)):
+                what = "normal form of a circuit has different boxes"
+            elif (steps[-1] if steps else d) != nf:
+                what = "normal form of a circuit is not the end of the normalize trace"
+            elif monoidal.Diagram.normal_form(nf, left=left) != nf:
+                what = "normal form of a circuit is not a fixed point"
+            elif len(nf.dom) + len(nf.cod) <= 4 and max([len(x.cod) for x in nf.layers.boxes] + [0]) <= 5:
+                a, b2 = d.eval(mixed=True), nf.eval(mixed=True)
+                import numpy
+                if not numpy.allclose(numpy.asarray(a.array, dtype=complex), numpy.asarray(b2.array, dtype=complex)):
+                    what = "normal form of a circuit has a different denotation"
+        except NotImplementedError:
+            rep.count("circuit-normal-form:not-implemented")
+        except Exception as exc:   # noqa
+            if type(exc).__name__ in ("CaseTimeout", "OutOfFuel"):
+                continue
+            what = "normal_form of a circuit raised %s: %s" % (type(exc).__name__, exc)
+        if what:
+            bad += 1
+            rep.count("oracle:circuit-normal-form:FAIL")
+            if bad <= 3:
+                rep.violation(what, {"class": "circuit", "diagram": repr(d), "left": left,
+                                     "replay": "from discopy.quantum import *; (%r).normal_form(left=%s)" % (d, left)})
+        else:
+            rep.count("oracle:circuit-normal-form:pass")
+
+
+def ci_bounded(normalizer):
+    import core_impl
+    return core_impl.bounded(normalizer)
+
+
 def run(tier, seed):
     import core_impl as ci
     rep = Report("C06", tier, seed)
@@ -228,6 +296,7 @@ def run(tier, seed):
                            "replay": base.snippet("rigid", [G.NORMALFORM, p, int(left)])})
         else:
             rep.count("oracle:explicit-normalizer:pass")
+    circuit_stream(rep, random.Random(seed + 606), 80 if tier == "quick" else 1500)
     base.settle(rep, "C06", proof_ok, "C06")
     return rep.finish(
         rule="class monoidal: every diagram over a small signature with <= 3 (4) boxes and random grown "
